@@ -14,7 +14,7 @@ if grep -q "autotests = false" crates/$crate/Cargo.toml; then printf '\n[[test]]
 feat=""; [ "$crate" = toml_edit ] && feat="--features serde"
 # a demonstration may need a non-default feature configuration: taken from its header comment
 hl=$(grep -E -- "cargo test.*--features" "$S/demo.rs" | head -1)
-hf=$(echo "$hl" | grep -oE -- "--features[ =][a-z_,]+" | head -1); [ -n "$hf" ] && feat="$hf"
+hf=$(echo "$hl" | grep -oE -- "--features[ =][a-z_,/]+" | head -1); [ -n "$hf" ] && feat="$hf"
 echo "$hl" | grep -q -- "--no-default-features" && feat="--no-default-features $feat"
 cargo test --offline -q -p $pkg $feat --test seed_demo > /tmp/confirm_clean.log 2>&1; clean_rc=$?
 git apply "$S/patch.diff" || { echo "REJECTED: patch does not apply"; exit 1; }
